@@ -67,7 +67,10 @@ static string skips(const string& s, int which) {
   string r = "[";
   for (size_t k = 0; k <= s.size(); k++) {
     if (k) r += ",";
-    size_t v = which == 0 ? skip_whitespace(s, k) : which == 1 ? skip_non_whitespace(s, k) : skip_word(s, k);
+    // NUL-free strings alternate between the std::string and the const char* overloads
+    bool cstr = s.find('\0') == string::npos && ((k + s.size()) % 2 == 1);
+    size_t v = cstr ? (which == 0 ? skip_whitespace(s.c_str(), k) : which == 1 ? skip_non_whitespace(s.c_str(), k) : skip_word(s.c_str(), k))
+                    : (which == 0 ? skip_whitespace(s, k) : which == 1 ? skip_non_whitespace(s, k) : skip_word(s, k));
     r += to_string(v);
   }
   return r + "]";
